@@ -104,7 +104,6 @@ def run_mapfn_case(case):
                 outs = [fn.mapfn(v) for v in vals]
             elif shape == "np0d":
                 outs = [fn.mapfn(numpy.float64(v)) for v in vals]
-                outs += []
             else:
                 arr = numpy.array(vals, dtype=case.get("dtype", "float64"))
                 if shape == "2d":
@@ -408,7 +407,7 @@ def run_gdist_case(case):
     with warnings.catch_warnings(), numpy.errstate(all="ignore"):
         warnings.simplefilter("ignore")
         D = m.gdist2g(vc, vg)
-        S = m.gdist1g(vc, vg) if ordered or True else None
+        S = m.gdist1g(vc, vg)
         if not (numpy.array_equal(vc, kc) and numpy.array_equal(vg, kg)):
             return True, "gdist modified its arguments", "gdist-mutates-args"
         if D.shape != (n, n):
@@ -930,7 +929,7 @@ def run_xoprob_case(case):
                     return True, "marker %d: distance undefined (absent chromosome) but probability %r" % (i, x), "xoprob-value"
                 continue
             lib = float(fn.mapfn(numpy.float64(d)))
-            if not abs(x - lib) <= 2 * EPS:
+            if not (x == lib or abs(x - lib) <= 2 * EPS):
                 return True, "marker %d: probability %r, map function (%s) of consecutive distance %r is %r" % (i, x, fname, d, lib), "xoprob-value"
             if d >= 0.0:
                 ref = ref_mapfn(fname, d)
@@ -972,7 +971,7 @@ U_XO = "ring[crossover probabilities of a genotype matrix]"
 
 
 @unit(P, U_XO, "R", bounded=True,
-      note="bounded: maps of <=4 chromosomes x 2..6 markers, genotype matrices of <=3 taxa x <=40 markers, 48 fixed + 160 "
+      note="bounded: maps of <=4 chromosomes x 2..6 markers, genotype matrices of <=3 taxa x <=40 markers, 32 fixed + 160 "
            "(quick) / 4000 (thorough) seeded cases; DenseGenotypeMatrix and DensePhasedGenotypeMatrix x both map classes x "
            "both map functions")
 def u_ring_xo(ctx):
